@@ -74,6 +74,10 @@ func DoubleQuotesToBackTick(str string) (string, error) {
 							continue
 						}
 					}
+					if r == '`' {
+						// a backtick inside the identifier is written doubled
+						buffer.WriteRune('`')
+					}
 					buffer.WriteRune(r)
 				}
 				i--
